@@ -895,7 +895,28 @@ func checkPoolOwnership(w *World, fn *ssa.Function) (bool, string) {
 	}
 	in := map[*ssa.BasicBlock]state{fn.Blocks[0]: {map[ssa.Value]bool{}, map[ssa.Value]bool{}}}
 	bad := ""
-	order := fn.DomPreorder()
+	// reverse postorder: every block is visited after all its predecessors (handlers have no stack
+	// operations in loops), so a join sees the union of what its branches pushed and put
+	var order []*ssa.BasicBlock
+	{
+		seen := map[*ssa.BasicBlock]bool{}
+		var post []*ssa.BasicBlock
+		var dfs func(b *ssa.BasicBlock)
+		dfs = func(b *ssa.BasicBlock) {
+			if seen[b] {
+				return
+			}
+			seen[b] = true
+			for _, s := range b.Succs {
+				dfs(s)
+			}
+			post = append(post, b)
+		}
+		dfs(fn.Blocks[0])
+		for i := len(post) - 1; i >= 0; i-- {
+			order = append(order, post[i])
+		}
+	}
 	putArgs := func(ci ssa.CallInstruction) []ssa.Value {
 		var out []ssa.Value
 		a := callArgs(ci)
